@@ -606,6 +606,11 @@ def _padded_facets(model, rep):
                     raise AnalysisError(f"build_entities on two prisms: {e}")
                 ents, mp = r[0].data, r[1].data
                 nf = len(ents[0])
+                if len(mp) != len(facets) or any(len(x) != 2 for x in mp):
+                    bad = bad or (f"the cell-to-facet table has shape "
+                                  f"({len(mp)}, {len(mp[0]) if mp else 0}) "
+                                  f"instead of ({len(facets)}, 2)")
+                    continue
                 shared = mp[top[0]][0] == mp[bot[0]][1]
                 if not shared or nf != 9:
                     bad = bad or (
